@@ -9,6 +9,7 @@ import (
 	"os"
 	"reflect"
 	"strings"
+	"testing/iotest"
 	"unsafe"
 
 	"github.com/philpearl/avro"
@@ -151,6 +152,8 @@ var dirtyDest reflect.Value
 // file). What the outer read delivers must not depend on it.
 var nestedRead *genFileT
 
+var readerRotation int
+
 func readFileImpl(g *GT, file []byte, cbFail int, buffered bool) (res fileRes) {
 	inner := nestedRead
 	nestedRead = nil
@@ -163,9 +166,26 @@ func readFileImpl(g *GT, file []byte, cbFail int, buffered bool) (res fileRes) {
 		}
 	}()
 	rt := g.RType()
-	var rd avro.Reader = bytes.NewReader(file)
+	// the kinds of reader a caller hands over, in rotation: a bytes.Reader, a bytes.Buffer (which
+	// hands out what it has without complaint), bufio readers of several sizes over a source that
+	// returns its last bytes together with io.EOF, or one byte per call
+	readerRotation++
+	var rd avro.Reader
 	if buffered {
-		rd = bufio.NewReaderSize(bytes.NewReader(file), 16)
+		switch readerRotation % 4 {
+		case 0, 1:
+			rd = bufio.NewReaderSize(bytes.NewReader(file), 16)
+		case 2:
+			rd = bufio.NewReaderSize(iotest.DataErrReader(bytes.NewReader(file)), 64)
+		default:
+			rd = bufio.NewReaderSize(iotest.OneByteReader(bytes.NewReader(file)), 4096)
+		}
+	} else {
+		if readerRotation%2 == 0 {
+			rd = bytes.NewReader(file)
+		} else {
+			rd = bytes.NewBuffer(append([]byte{}, file...))
+		}
 	}
 	// out is a struct value or (with the buffered reader) a pointer to one: the pointer
 	// form decodes into the caller's own variable
@@ -311,7 +331,83 @@ func checkValues(r *Run, id int, gf *genFileT, res fileRes, n int, desc map[stri
 	}
 }
 
+// c07FieldlessRecords: a record type without fields (an event that carries nothing but its
+// occurrence): the blocks declare their counts over zero bytes of data, and exactly that many
+// records are delivered.  And histories of two reads: a file torn inside its header, then a
+// valid file lacking the codec entry or (refused) the schema entry — a reader carries nothing
+// over from one file to the next.
+func c07FieldlessRecords(r *Run) {
+	type tick struct {
+		X int64 `json:"not_in_the_schema"`
+	}
+	read := func(file []byte) (n int, err error) {
+		defer func() {
+			if p := recover(); p != nil {
+				err = fmt.Errorf("PANIC: %v", p)
+			}
+		}()
+		readerRotation++
+		var rd avro.Reader = bytes.NewReader(file)
+		if readerRotation%2 == 0 {
+			rd = bufio.NewReaderSize(bytes.NewReader(file), 16)
+		}
+		err = avro.ReadFile(rd, tick{}, func(val unsafe.Pointer, rb *avro.ResourceBank) error {
+			n++
+			return nil
+		})
+		return
+	}
+	for _, schema := range []string{`{"type":"record","name":"Tick","fields":[]}`, `{"type":"record","name":"Tick","fields":[{"name":"nothing","type":"null"}]}`} {
+		for _, codec := range []string{"null", "deflate", "snappy", ""} {
+			ct := &Container{SchemaJSON: []byte(schema), Codec: codec, Sync: randSync(r.Rng)}
+			counts := []int64{3, 2, 1}
+			total := 0
+			for _, c := range counts {
+				ct.Blocks = append(ct.Blocks, CBlock{Count: c})
+				total += int(c)
+			}
+			file := ct.Bytes(false)
+			n, err := read(file)
+			r.Count("fieldless-records")
+			if err != nil || n != total {
+				r.Fail(-1, "valid-records", fmt.Sprintf("a file of a record type without fields, blocks declaring %v records: ReadFile delivered %d records, error %v", counts, n, err),
+					map[string]any{"schema": schema, "codec": codec, "file": hexs(file)})
+			}
+		}
+	}
+	// two reads in a row
+	rec := `{"type":"record","name":"Row","fields":[{"name":"not_in_the_schema","type":"long"}]}`
+	row := func(v int64) []byte { return specVarint(v) }
+	for _, tornCodec := range []string{"deflate", "snappy", "null"} {
+		other := `{"type":"record","name":"Other","fields":[{"name":"a","type":"string"},{"name":"b","type":"string"}]}`
+		torn := (&Container{SchemaJSON: []byte(other), Codec: tornCodec, Sync: randSync(r.Rng), Blocks: []CBlock{{Count: 1, Payload: []byte{2, 'x', 2, 'y'}}}})
+		tb := torn.Bytes(false)
+		for _, cutBack := range []int{1, 5, 16, 17} { // inside the header's sync marker, or just before it
+			good := &Container{SchemaJSON: []byte(rec), Codec: "", Sync: randSync(r.Rng), Blocks: []CBlock{{Count: 2, Payload: append(row(5), row(6)...)}, {Count: 1, Payload: row(7)}}}
+			gb := good.Bytes(false)
+			noSchema := containerWithMeta(good, map[string][]byte{"avro.codec": []byte("null")})
+			desc := map[string]any{"history": fmt.Sprintf("ReadFile(file with codec %s cut %d bytes before the end of its header) then ReadFile(valid file without avro.codec) then ReadFile(file without avro.schema)", tornCodec, cutBack),
+				"first_file": hexs(tb[:torn.HeaderLen-cutBack]), "second_file": hexs(gb), "third_file": hexs(noSchema)}
+			if _, err := read(tb[:torn.HeaderLen-cutBack]); err == nil {
+				r.Fail(-1, "header-torn-accepted", "a file cut inside its header was read without error", desc)
+			}
+			n, err := read(gb)
+			r.Count("two-reads")
+			if err != nil || n != 3 {
+				r.Fail(-1, "header-no-codec-entry", fmt.Sprintf("after a torn file, a valid file without a codec entry (uncompressed) delivered %d of 3 records, error %v", n, err), desc)
+			}
+			if _, err := read(tb[:torn.HeaderLen-cutBack]); err == nil {
+				r.Fail(-1, "header-torn-accepted", "a file cut inside its header was read without error", desc)
+			}
+			if n, err := read(noSchema); err == nil {
+				r.Fail(-1, "header-missing-schema", fmt.Sprintf("after a torn file, a file without a schema entry was read without error (%d records)", n), desc)
+			}
+		}
+	}
+}
+
 func runC07(r *Run) {
+	c07FieldlessRecords(r)
 	nfiles := r.N(60, 500)
 	for i := 0; i < nfiles; i++ {
 		gf := genFile(r, 8)
@@ -414,6 +510,27 @@ func runC07(r *Run) {
 					r.Fail(id, "sync-mismatch-accepted", fmt.Sprintf("block %d sync marker bit %d flipped: ReadFile returned %s", bi, bit, res.Class), d2)
 				} else if res.N != before+gf.perBlk[bi] {
 					r.Fail(id, "sync-mismatch-records", fmt.Sprintf("sync damage in block %d: %d records delivered, expected %d", bi, res.N, before+gf.perBlk[bi]), d2)
+				}
+			}
+			// the declared record count raised: the block holds fewer records than it declares. Unless the
+			// records can occupy zero bytes, that is damage: an error after the records that are there
+			if !zeroWidth(gf.s) && gf.perBlk[bi] > 0 {
+				for _, add := range []int64{1, 2, int64(gf.perBlk[bi])} {
+					c2 := *c
+					c2.Blocks = append([]CBlock{}, c.Blocks...)
+					c2.Blocks[bi].Count += add
+					mut := c2.Bytes(false)
+					res := readFileImpl(gf.g, mut, -1, add == 2)
+					d2 := withKV(desc, "declared_count_raised", fmt.Sprintf("block %d declares %d records, holds %d", bi, c2.Blocks[bi].Count, gf.perBlk[bi]))
+					d2["file"] = hexs(mut)
+					id := addFileCase(r, gf, mut, -1, res, d2, fmt.Sprintf("count/%d/%d/%x", bi, add, gf.file))
+					r.Count("damage/count-raised")
+					switch {
+					case res.Class == "panic":
+						r.Fail(id, "damage-panic", fmt.Sprintf("a block declaring more records than it holds panics: %v", res.Err), d2)
+					case res.Class != "err":
+						r.Fail(id, "count-mismatch-accepted", fmt.Sprintf("block %d declares %d records and holds %d: ReadFile returned %s with %d records", bi, c2.Blocks[bi].Count, gf.perBlk[bi], res.Class, res.N), d2)
+					}
 				}
 			}
 			// stored bytes (compressed payload incl. snappy checksum)
